@@ -14,7 +14,14 @@ BLOCKS = (
     "x = xx\nxx = 0.5*x_1 + G\nx_1 = x\nd = x + xx\nxx(0) = SYM_IC\nexogenous\nG = SYM_G",   # prefix-sharing names
     "n = 4\nx = n\nz = x*2\nm = 3 + 1\nw = 0.5*w + G\nw(0) = SYM_IC\nexogenous\nG = SYM_G",          # integer-valued constants behind aliases
     "a = H\nb = a\nc = 2*H\nw = 0.5*w + G + b\nw(0) = SYM_IC\nexogenous\nG = SYM_G\nH = [20, 25]",   # exogenous list written with integers
+    # a user function (registered with AddFunction before the solve) in equations whose arguments are known at k=0: a constant, a simultaneous
+    # variable, and variables nothing depends on (set aside as decorative when reduction is on)
+    "c = 3.0\nbase = fn(c)\nshare = fn(G)/100.\nw = 0.5*w + base\nrep = fn(c) + w\nw(0) = SYM_IC\nexogenous\nG = SYM_G",
 )
+
+
+def _twice_plus_one(v):
+    return 2. * v + 1.
 
 
 def _k0(block, ic, g):
@@ -24,6 +31,7 @@ def _k0(block, ic, g):
     for reduce in (True, False):
         es = EquationSolver(run_equation_reduction=reduce)
         es.MaxTime = 1
+        es.AddFunction('fn', _twice_plus_one)
         es.ParseString(block)
         es.ExtractVariableList()
         es.SetInitialConditions()
@@ -114,6 +122,14 @@ def check_k0_block9(ic: float, g: float) -> bool:
     post: _
     """
     return _same(BLOCKS[9], ic, g)
+
+
+def check_k0_block10(ic: float, g: float) -> bool:
+    """
+    pre: -100 <= ic <= 100 and -100 <= g <= 100
+    post: _
+    """
+    return _same(BLOCKS[10], ic, g)
 
 
 def reach_k0(ic: float, g: float) -> bool:
